@@ -329,12 +329,17 @@ class AbstractExcelInPython(ABC):
                 if not is_number(row[0]) or not is_number(lookup_value):
                     continue
 
+            key, wanted = row[0], lookup_value
+            if isinstance(key, str) and isinstance(wanted, str):
+                # text keys match without regard to case, as they do in MATCH
+                key, wanted = key.lower(), wanted.lower()
+
             if range_lookup:
-                if row[0] <= lookup_value:
+                if key <= wanted:
                     last_valid_value = row[col_index_num - 1]
                 else:
                     return last_valid_value
-            elif row[0] == lookup_value:
+            elif key == wanted:
                 return row[col_index_num - 1]
 
         return last_valid_value
